@@ -374,6 +374,21 @@ def _alias_forms(spec, ctx, R):
                 continue
             _t2_check(ctx, "product_T2", path + ":alias:" + lab, C, ref_x, ref_y, extra={"form": lab, "n": n})
         ctx.check("operands_unchanged", bool(np.array_equal(refq.fa(A), before)), site="alias:" + lab)
+    # NEAR relations between the operands (not relations): B within a relative 1e-6 .. 1e-12 of A^H, of A^T, of A itself, componentwise - a
+    # recomputed, rounded or nearly converged copy.  The product is A B, not A A^H.
+    for d_ in (5e-9, 1e-6, 1e-12):
+        pert = 1.0 + d_ * rng.uniform(-1.0, 1.0, size=(n, n, 4))
+        for lab, Yb in (("near_A^H", refq.herm(A)), ("near_A^T", A.T.copy()), ("near_A", A.copy())):
+            Y = refq.qa(refq.fa(Yb) * pert)
+            for path, call in (("dd", lambda: U.quat_matmat(A, Y)), ("sd", lambda: U.quat_matmat(R.sparse_from_dense(A), Y)),
+                               ("ss", lambda: U.quat_matmat(R.sparse_from_dense(A), R.sparse_from_dense(Y)))):
+                try:
+                    Cn = call()
+                    Cn = densify(Cn) if isinstance(Cn, U.SparseQuaternionMatrix) else Cn
+                    _t2_check(ctx, "product_T2", f"{path}:near_relation:{lab}", Cn, np.array(A, copy=True), Y, extra={"delta": d_, "n": n})
+                except Exception as e:
+                    ctx.check("product_T2", False, site=f"{path}:near_relation:{lab}", detail={"exception": repr(e)[:200]})
+    ctx.hit("forms:near_relations")
     # the SAME SparseQuaternionMatrix object as both factors (squaring, powers), its own conjugate transpose, and a second container that shares
     # the component matrices: matrix squaring has no scalar shortcut (the component matrices do not commute)
     S = R.sparse_from_dense(A)
